@@ -246,4 +246,43 @@ class OpenResetsRegistries(Contract):
                 ctx.oblige(f"registry-{reg}-is-empty-when-the-tree-is-loaded", isinstance(val, _PD) and len(val.items) == 0)
 
 
-CONTRACTS = [ParentSet, PropertyGroupRemove, PropertyGroupAdd, AddSaveConcatenated, OpenResetsRegistries]
+class _AllOfKind(Contract):
+    """Listing the live entities of one kind sweeps that kind's registry against that kind's own
+    container of the file (a collected object is deleted from "Objects", never from another
+    container) and lists the referents of that registry only."""
+    props = ("C02", "C05", "C09")
+    lenient = True
+    registry = ""
+    label = ""
+
+    def setup(self, ctx):
+        from geoh5py.workspace import Workspace
+
+        me = Opaque("self", cls=Workspace)
+        for reg in ("_data", "_objects", "_groups", "_types", "_property_groups"):
+            me.attrs[reg] = Opaque("registry:" + reg)
+        sweep = Opaque("remove_none_referents")
+        sweep.maybe_method = lambda I, a, kw: I.event("sweep", registry=a[0], label=a[1] if len(a) > 1 else kw.get("rtype"))
+        me.attrs["remove_none_referents"] = sweep
+        ctx.env.update(me=me)
+        return [me], {}
+
+    def post(self, ctx, result):
+        me = ctx.env["me"]
+        sweeps = [p for k, p in ctx.path.events if k == "sweep"]
+        ok = len(sweeps) == 1 and sweeps[0]["registry"] is me.attrs[self.registry] and sweeps[0]["label"] == self.label
+        ctx.oblige("the-registry-is-swept-against-the-container-of-its-own-kind", ok,
+                   note="; ".join(f"{getattr(p['registry'], 'tag', p['registry'])} swept against {p['label']!r}" for p in sweeps))
+
+
+def _all_of(method, registry, label):
+    return type("AllOf" + label.replace(" ", ""), (_AllOfKind,), {"target": f"geoh5py/workspace/workspace.py::Workspace.{method}", "registry": registry, "label": label, "__module__": __name__})
+
+
+ALL_OF = [_all_of("_all_data", "_data", "Data"), _all_of("_all_groups", "_groups", "Groups"), _all_of("_all_objects", "_objects", "Objects"),
+          _all_of("_all_types", "_types", "Types"), _all_of("_all_property_groups", "_property_groups", "PropertyGroups")]
+for _k in ALL_OF:
+    globals()[_k.__name__] = _k
+
+
+CONTRACTS = ALL_OF + [ParentSet, PropertyGroupRemove, PropertyGroupAdd, AddSaveConcatenated, OpenResetsRegistries]
